@@ -35,7 +35,36 @@ theorem specOutcome_of_noErr (c : Ctx) (h : anyErr c = false) (r : Res Bool) :
     specOutcome c r = relOutcome r := by
   simp [specOutcome, h]
 
-/-! ### small facts about the relations -/
+/-! ### shape-independent evaluation of a generated condition
+
+The per-assertion theorems of PedalProofs/C07.lean do not compare the generated `CondExpr` with an
+expected term.  They UNFOLD `eval` on whatever the translator produced (`c07_unfold`), split on the
+finitely many observations the specified relation depends on (the answer of `pyCmp` / `pyIn` /
+`eqTest` / `re.search` ..., whether an operand is proxied) and let `simp` compute both sides.  So
+every condition with the same meaning is accepted - early return or `or`, a conditional expression,
+`not (a in b)` or `a not in b`, `unwrap_value(x)` or `x._actual_value if x.is_sandboxed else x`,
+locals and helpers inlined by the translator - and every condition with another meaning leaves an
+unprovable goal.  The lemmas below are the rewriting rules that unfolding needs. -/
+
+theorem noErr_sides (c : Ctx) (h : anyErr c = false) : isErr c.left = false ∧ isErr c.right = false := by
+  have he : (isErr c.left || isErr c.right) = false := h
+  cases h1 : isErr c.left <;> cases h2 : isErr c.right <;> simp [h1, h2] at he ⊢
+
+/-- `Correct` from the case in which neither operand is an error (the guard covers the rest). -/
+theorem correct_of_noErr (name : String) (cond : CondExpr) (rel : Ctx → Res Bool) (h : relOf name = some rel)
+    (hc : ∀ c : Ctx, isErr c.left = false → isErr c.right = false →
+      evalOutcome (eval c cond) = relOutcome (rel c)) : Correct name cond :=
+  correct_of name cond rel h fun c he => hc c (noErr_sides c he).1 (noErr_sides c he).2
+
+theorem V.unwrapped_v (x : V) : x.unwrapped.v = x.v := rfl
+theorem V.unwrapped_px (x : V) : x.unwrapped.px = false := rfl
+theorem V.unwrapped_oid (x : V) : x.unwrapped.oid = x.oid := rfl
+theorem V.unwrapped_unwrapped (x : V) : x.unwrapped.unwrapped = x.unwrapped := rfl
+theorem V.fresh_v (a : PyVal) : (V.fresh a).v = a := rfl
+theorem V.fresh_px (a : PyVal) : (V.fresh a).px = false := rfl
+theorem V.ofBool_v (b : Bool) : (V.ofBool b).v = .bool b := rfl
+theorem V.ofBool_px (b : Bool) : (V.ofBool b).px = false := rfl
+theorem truthy_bool (b : Bool) : truthy (.bool b) = b := rfl
 
 theorem vIn_unwrapped (x y : V) : vIn x.unwrapped y = pyIn x.v y.v := by
   unfold vIn
@@ -45,249 +74,56 @@ theorem vIn_fresh (a : PyVal) (y : V) : vIn (V.fresh a) y = pyIn a y.v := by
   unfold vIn
   cases y.v <;> simp [V.fresh]
 
-theorem pyIs_cond (l r : V) :
-    pyIs (if l.px then l.unwrapped else l) (if r.px then r.unwrapped else r) = sameObject l r := by
-  unfold sameObject
-  cases hl : l.px <;> cases hr : r.px <;> simp [pyIs, V.unwrapped, hl, hr]
+/-- a needle that is not a proxy -/
+theorem vIn_raw (x y : V) (h : x.px = false) : vIn x y = pyIn x.v y.v := by
+  unfold vIn
+  cases y.v <;> simp [h]
 
-/-- `X.value._actual_value if X.is_sandboxed else X.value` -/
-theorem eval_actual_left (c : Ctx) :
-    eval c (.ite (.isSandboxed .left) (.actualValue (.value .left)) (.value .left)) =
-      .ok (if c.left.px then c.left.unwrapped else c.left) := by
-  simp only [eval, Ctx.side]
-  cases h : c.left.px <;> simp [V.ofBool, V.fresh, truthy]
+/-- `is` between two things neither of which is a proxy object is `is` on the underlying objects -/
+theorem pyIs_raw (a b : V) (ha : a.px = false) (hb : b.px = false) : pyIs a b = sameObject a b := by
+  unfold sameObject pyIs
+  simp [V.unwrapped, ha, hb]
 
-theorem eval_actual_right (c : Ctx) :
-    eval c (.ite (.isSandboxed .right) (.actualValue (.value .right)) (.value .right)) =
-      .ok (if c.right.px then c.right.unwrapped else c.right) := by
-  simp only [eval, Ctx.side]
-  cases h : c.right.px <;> simp [V.ofBool, V.fresh, truthy]
+theorem pyIs_unwrapped_unwrapped (a b : V) : pyIs a.unwrapped b.unwrapped = sameObject a b := rfl
 
-theorem eval_len_left (c : Ctx) :
-    eval c (.len (.value .left)) =
-      match pyLen c.left.v with
-      | .ok n => .ok (V.fresh (.int n))
-      | .error e => .error e := by
-  simp only [eval, Ctx.side]
-  cases pyLen c.left.v <;> rfl
+theorem pyIs_unwrapped_raw (a b : V) (hb : b.px = false) : pyIs a.unwrapped b = sameObject a b :=
+  pyIs_raw a.unwrapped b rfl hb
 
-/-- `value = unwrap_value(cls.value)`, then `(int, float) if value == int or value == float else value` -/
-def widenExpr : CondExpr :=
-  .ite (.or_ (.cmp .eq (.unwrap (.value .right)) (.tyLit .int)) (.cmp .eq (.unwrap (.value .right)) (.tyLit .float)))
-    (.tuple2 (.tyLit .int) (.tyLit .float)) (.unwrap (.value .right))
+theorem pyIs_raw_unwrapped (a b : V) (ha : a.px = false) : pyIs a b.unwrapped = sameObject a b :=
+  pyIs_raw a b.unwrapped ha rfl
 
-theorem eval_widen (c : Ctx) : ∃ w, eval c widenExpr = .ok w ∧ w.v = widenCls c.right.v := by
-  simp only [widenExpr, eval, evalCmp, Ctx.side, V.unwrapped]
-  cases hv : c.right.v with
-  | typ t => cases t <;> simp [pyEq, V.ofBool, V.fresh, truthy, widenCls, hv]
-  | _ => simp [pyEq, num?, V.ofBool, V.fresh, truthy, widenCls, hv]
+theorem sameObject_unwrapped_left (a b : V) : sameObject a.unwrapped b = sameObject a b := rfl
+theorem sameObject_unwrapped_right (a b : V) : sameObject a b.unwrapped = sameObject a b := rfl
 
-theorem eval_or_errors2 (c : Ctx) (b : CondExpr) (h : anyErr c = false) :
-    eval c (.or_ .errors2 b) = eval c b := by
-  have he : (isErr c.left || isErr c.right) = false := h
-  rw [eval, eval]
-  simp [he, V.ofBool, V.fresh, truthy]
+theorem pyIs_none_right (x : V) (h : x.px = false) : pyIs x (V.fresh .none) = isNoneVal x.v := by
+  unfold pyIs
+  cases hv : x.v <;> simp [V.fresh, h, isNoneVal]
 
-theorem eval_or_errors1 (c : Ctx) (b : CondExpr) (h : anyErr c = false) :
-    eval c (.or_ (.errors1 .left) b) = eval c b := by
-  have he : (isErr c.left || isErr c.right) = false := h
-  have hl : isErr c.left = false := by
-    cases h1 : isErr c.left
-    · rfl
-    · simp [h1] at he
-  rw [eval, eval]
-  simp [hl, Ctx.side, V.ofBool, V.fresh, truthy]
+theorem pyIs_none_left (x : V) (h : x.px = false) : pyIs (V.fresh .none) x = isNoneVal x.v := by
+  unfold pyIs
+  cases hv : x.v <;> simp [V.fresh, h, isNoneVal]
 
-/-- a condition of the form `not <relation>`: the assertion is silent exactly when the relation is True -/
-theorem evalOutcome_not (c : Ctx) (a : CondExpr) (r : Res Bool) (h : eval c a = r.map V.ofBool) :
-    evalOutcome (eval c (.not_ a)) = relOutcome r := by
-  rw [eval, h]
-  cases r with
-  | error e => cases e <;> rfl
-  | ok b => cases b <;> rfl
+theorem pyIs_none_right_unwrapped (x : V) : pyIs x.unwrapped (V.fresh .none) = isNoneVal x.v :=
+  pyIs_none_right x.unwrapped rfl
 
-/-- a condition that is the negated relation itself: silent exactly when the relation is False -/
-theorem evalOutcome_pos (c : Ctx) (a : CondExpr) (r : Res Bool) (h : eval c a = r.map V.ofBool) :
-    evalOutcome (eval c a) = relOutcome (notR r) := by
-  rw [h]
-  cases r with
-  | error e => cases e <;> rfl
-  | ok b => cases b <;> rfl
-
-theorem eval_equalityTest_params (c : Ctx) :
-    eval c (.equalityTest (.value .left) (.value .right) (.param "exact_strings") (.param "delta")) =
-      (equalRel c).map V.ofBool := by
-  simp only [eval, Ctx.side, equalRel]
-  simp only [show ("exact_strings" == "exact_strings") = true from by decide,
-    show ("delta" == "exact_strings") = false from by decide,
-    show ("delta" == "delta") = true from by decide, if_true, Bool.false_eq_true, if_false, V.fresh]
-  cases deltaOf c.delta <;> rfl
+theorem pyIs_none_left_unwrapped (x : V) : pyIs (V.fresh .none) x.unwrapped = isNoneVal x.v :=
+  pyIs_none_left x.unwrapped rfl
 
 theorem notR_notR (r : Res Bool) : notR (notR r) = r := by
   cases r with
   | error e => rfl
   | ok b => cases b <;> rfl
 
-theorem eval_str_right (c : Ctx) : eval c (.str_ (.value .right)) = .ok (V.fresh (.str (strOfV c c.right))) := by
-  simp only [eval, Ctx.side, strOfV]
-  cases c.right.v <;> rfl
+theorem beq_exact_exact : ("exact_strings" == "exact_strings") = true := by decide
+theorem beq_delta_exact : ("delta" == "exact_strings") = false := by decide
+theorem beq_delta_delta : ("delta" == "delta") = true := by decide
 
-theorem eval_reSearch_eq (c : Ctx) (p t : CondExpr) :
-    eval c (.reSearch p t) =
-      match eval c p, eval c t with
-      | .ok x, .ok y =>
-        if x.px then .error .raised
-        else match x.v, y.v with
-          | .str ps, .str ts =>
-            if y.px then .error .raised
-            else (c.search ps ts).map fun m => if m then V.fresh (.obj 1) else V.fresh .none
-          | _, _ => .error .raised
-      | .error e, _ => .error e
-      | _, .error e => .error e := by
-  rw [eval]; rfl
-
-theorem eval_cmp_eq (c : Ctx) (op : CmpOp) (a b : CondExpr) :
-    eval c (.cmp op a b) =
-      match eval c a with
-      | .error e => .error e
-      | .ok x =>
-        match eval c b with
-        | .error e => .error e
-        | .ok y => evalCmp op x y := by
-  rw [eval]; rfl
-
-/-- `re.search(unwrap_value(regex.value), str(text.value))` -/
-theorem eval_regex_search (c : Ctx) :
-    eval c (.reSearch (.unwrap (.value .left)) (.str_ (.value .right))) =
-      match regexRel c with
-      | .ok m => .ok (if m then V.fresh (.obj 1) else V.fresh .none)
-      | .error e => .error e := by
-  rw [eval_reSearch_eq, eval_str_right]
-  simp only [eval, Ctx.side, regexRel, V.unwrapped, V.fresh]
-  cases hl : c.left.v <;> simp
-  case str ps =>
-    cases hs : c.search ps (strOfV c c.right) with
-    | error e => simp [Except.map]
-    | ok m => cases m <;> simp [Except.map]
-
-/-- `... is None` / `... is not None` on the result of the search -/
-theorem eval_regex (c : Ctx) :
-    eval c (.cmp .is_ (.reSearch (.unwrap (.value .left)) (.str_ (.value .right))) .noneLit) =
-      (notR (regexRel c)).map V.ofBool ∧
-    eval c (.cmp .isNot (.reSearch (.unwrap (.value .left)) (.str_ (.value .right))) .noneLit) =
-      (regexRel c).map V.ofBool := by
-  rw [eval_cmp_eq, eval_cmp_eq, eval_regex_search]
-  cases h : regexRel c with
-  | error e => exact ⟨rfl, rfl⟩
-  | ok m => cases m <;> simp [eval, evalCmp, pyIs, V.fresh, V.ofBool, notR, Except.map]
-
-/-! ### output assertions -/
-
-theorem eval_param_exact (c : Ctx) : eval c (.param "exact_strings") = .ok (V.fresh c.exact) := by
-  rw [eval]
-  simp only [show ("exact_strings" == "exact_strings") = true from by decide, if_true]
-
-theorem eval_noneLit (c : Ctx) : eval c .noneLit = .ok (V.fresh .none) := by
-  rw [eval]
-
-theorem eval_output_left (c : Ctx) :
-    eval c (.output .left) = (c.output .left).map fun o => V.fresh (.str o) := by
-  rw [eval]
-
-theorem eval_equalityTest_eq (c : Ctx) (a b ex d : CondExpr) :
-    eval c (.equalityTest a b ex d) =
-      match eval c a, eval c b, eval c ex, eval c d with
-      | .ok x, .ok y, .ok e, .ok dd =>
-        match deltaOf dd.v with
-        | .error er => .error er
-        | .ok dv => (eqTest (truthy e.v) dv x.v y.v).map V.ofBool
-      | .error e, _, _, _ => .error e
-      | _, .error e, _, _ => .error e
-      | _, _, .error e, _ => .error e
-      | _, _, _, .error e => .error e := by
-  rw [eval]; rfl
-
-theorem eval_output_equality (c : Ctx) :
-    eval c (.equalityTest (.output .left) (.str_ (.value .right)) (.param "exact_strings") .noneLit) =
-      (outputRel c).map V.ofBool := by
-  rw [eval_equalityTest_eq, eval_output_left, eval_str_right, eval_param_exact, eval_noneLit]
-  unfold outputRel
-  cases h : c.output .left with
-  | error e => rfl
-  | ok o => simp [Except.map, V.fresh, deltaOf]
-
-theorem eval_ite_eq (c : Ctx) (t a b : CondExpr) :
-    eval c (.ite t a b) =
-      match eval c t with
-      | .error e => .error e
-      | .ok x => if truthy x.v then eval c a else eval c b := by
-  rw [eval]; rfl
-
-theorem eval_not_eq (c : Ctx) (a : CondExpr) :
-    eval c (.not_ a) =
-      match eval c a with
-      | .ok x => .ok (V.ofBool (!truthy x.v))
-      | .error e => .error e := by
-  rw [eval]; rfl
-
-theorem eval_lower_eq (c : Ctx) (a : CondExpr) :
-    eval c (.lower a) =
-      match eval c a with
-      | .error e => .error e
-      | .ok x =>
-        match x.v with
-        | .str s => if isAscii s then .ok (V.fresh (.str (s.map lowerC))) else .error .unmodelled
-        | _ => .error .raised := by
-  rw [eval]; rfl
-
-theorem truthy_bool (b : Bool) : truthy (.bool b) = b := rfl
-
-/-- `str(text.value) [.lower()] in self.get_output(execution) [.lower()]`, `in` and `not in` forms -/
-theorem eval_output_contains (c : Ctx) :
-    eval c (.ite (.not_ (.param "exact_strings"))
-        (.cmp .in_ (.lower (.str_ (.value .right))) (.lower (.output .left)))
-        (.cmp .in_ (.str_ (.value .right)) (.output .left))) = (outputContainsRel c).map V.ofBool ∧
-    eval c (.ite (.not_ (.param "exact_strings"))
-        (.cmp .notIn (.lower (.str_ (.value .right))) (.lower (.output .left)))
-        (.cmp .notIn (.str_ (.value .right)) (.output .left))) = (notR (outputContainsRel c)).map V.ofBool := by
-  rw [eval_ite_eq, eval_ite_eq, eval_not_eq, eval_param_exact]
-  simp only [eval_cmp_eq, eval_lower_eq, eval_str_right, eval_output_left, outputContainsRel, V.fresh, V.ofBool,
-    truthy_bool]
-  cases hex : truthy c.exact
-  · -- not exact: lower both
-    simp only [Bool.not_false, if_true, Bool.false_eq_true, if_false]
-    cases ha : isAscii (strOfV c c.right)
-    · simp [notR, Except.map]
-    · cases ho : c.output .left with
-      | error e => simp [Except.map, notR]
-      | ok o =>
-        cases hao : isAscii o
-        · simp [Except.map, notR, hao]
-        · simp [Except.map, evalCmp, vIn, pyIn, notR, V.ofBool, V.fresh, hao]
-  · simp only [Bool.not_true, Bool.false_eq_true, if_false, if_true]
-    cases ho : c.output .left with
-    | error e => simp [Except.map, notR]
-    | ok o => simp [Except.map, evalCmp, vIn, pyIn, notR, V.ofBool, V.fresh]
-
-/-- `re.search(str(text.value), self.get_output(execution))` compared with None -/
-theorem eval_output_regex (c : Ctx) :
-    eval c (.cmp .is_ (.reSearch (.str_ (.value .right)) (.output .left)) .noneLit) =
-      (notR (outputRegexRel c)).map V.ofBool ∧
-    eval c (.cmp .isNot (.reSearch (.str_ (.value .right)) (.output .left)) .noneLit) =
-      (outputRegexRel c).map V.ofBool := by
-  rw [eval_cmp_eq, eval_cmp_eq, eval_reSearch_eq, eval_str_right, eval_output_left, eval_noneLit]
-  unfold outputRegexRel
-  cases ho : c.output .left with
-  | error e => exact ⟨rfl, rfl⟩
-  | ok o =>
-    simp only [Except.map, V.fresh]
-    cases hs : c.search (strOfV c c.right) o with
-    | error e => simp [notR, Except.map]
-    | ok m => cases m <;> simp [evalCmp, pyIs, V.fresh, V.ofBool, notR, Except.map]
-
-theorem pyIs_none_right (x : V) (h : x.px = false) : pyIs x (V.fresh .none) = isNoneVal x.v := by
-  unfold pyIs
-  cases hv : x.v <;> simp [V.fresh, h, isNoneVal]
+/-- the widened class of assert_is_instance, as the condition computes it with two `==` -/
+theorem widenCls_eq (v : PyVal) :
+    widenCls v = if pyEq v (.typ .int) || pyEq v (.typ .float) then .tuple [.typ .int, .typ .float] else v := by
+  cases v with
+  | typ t => cases t <;> simp [widenCls, pyEq]
+  | _ => simp [widenCls, pyEq, num?]
 
 theorem numCmp_ne_un (a b : Int × Nat) : numCmp a b ≠ .un := by
   unfold numCmp
